@@ -17,8 +17,8 @@ ATOL = 5e-5  # float32 transforms composed of several float32 parts; convention 
 
 
 def cfg(tier: str, emit: bool) -> str:
-    t = "Q"
-    s = (f"SPECIFICATION Spec\nCONSTANTS\n  Dims = {{2, 3}}\n  ModelsOf <- {t}Models\n  GridsOf <- {t}GridsOf\n  OthersOf <- {t}Others\n"
+    t = "Q" if tier == "quick" else "T"
+    s = (f"SPECIFICATION Spec\nCONSTANTS\n  Dims = {{2, 3}}\n  ModelsOf <- QModels\n  GridsOf <- {t}GridsOf\n  OthersOf <- {t}Others\n"
          f"  EmitCases = {'TRUE' if emit else 'FALSE'}\n")
     if not emit:
         s += "INVARIANT Laws\n"
